@@ -17,7 +17,7 @@ use std::collections::{BTreeMap, BTreeSet};
 pub struct C14;
 
 const USER: &str = "user = #['bin, 'int] { =[path, mode], f = [path, 577, 420] __file_open__, k = [f, 0, 0xaabb] __file_write__, mode { | =0 => f __file_close__ | =2 => [1, 0] __integer_divide__ | Ok }, k }";
-const GIVER: &str = "giver = #[(@\\File), 'bin, 'int] { =[k, path, ua], f = [path, 577, 420] __file_open__, n = [f, 0, 0xaabbcc] __file_write__, f k, ua { | =1 => [f, 0, 2] __file_read__ __binary_length__ | n } }";
+const GIVER: &str = "giver = #[(@\\File), 'bin, 'int] { =[k, path, ua], f = [path, 577, 420] __file_open__, n = [f, 0, 0xaabbcc] __file_write__, x = f __file_flush__, f k, ua { | =1 => [f, 0, 2] __file_read__ __binary_length__ | =2 => [f, 0, 0x01] __file_write__ | =3 => { y = f __file_flush__, 0 } | =4 => { y = f __file_close__, 0 } | =5 => { f k, 0 } | n } }";
 const KEEPER: &str = "keeper = #'int { =c, f = !#\\File, d = [f, 0, 4] __file_read__, c { | =1 => f __file_close__ | Ok }, d __binary_length__ }";
 const KEEPT: &str = "keept = #{ !#[\\File, 'int] =[f, n], d = [f, 0, 4] __file_read__, [d __binary_length__, n] __integer_add__ }";
 const CHILD: &str = "child = #\\File { =g, d = [g, 0, 4] __file_read__, d __binary_length__ }";
@@ -88,8 +88,10 @@ impl Property for C14 {
                 }
                 1 => {
                     let c = rng.below(2);
-                    let ua = rng.below(2);
-                    h.u64(c * 2 + ua);
+                    // what the giver does with the handle after giving it away: nothing, read, write,
+                    // flush, close (all must be refused), or send it a second time
+                    let ua = *rng.pick(&[0u64, 0, 1, 2, 3, 4, 5]);
+                    h.u64(c * 8 + ua);
                     lines.push(format!("k{k} = {c} @keeper"));
                     lines.push(format!("g{k} = [&k{k}, \"/e{k}\" .0, {ua}] @giver"));
                     aw(rng, &mut awaits, format!("k{k}"));
